@@ -23,7 +23,7 @@ def cases(draw, tier):
     na_hi = 3 if tier == "quick" else 4
     nmax = 3 if tier == "quick" else 4
     if draw(st.integers(0, 15)) == 0:
-        case = draw(gen.state_case(types=["density"], n=(4, 6), nh=(1, 6), na=(1, 5), scales=[0.05, 0.5, 2.0], bound=300.0))   # beyond the box
+        case = draw(gen.state_case(types=["density"], n=(5, 8), nh=(1, 4), na=(1, 3), scales=[0.05, 0.5, 2.0], bound=300.0))   # beyond the box (up to 256 basis states)
         case["large"] = True
     else:
         case = draw(gen.state_case(types=["density"], n=(1, nmax), nh=(1, 4), na=(1, na_hi), bound=300.0))
